@@ -77,7 +77,7 @@ func (l *LineFilterPlanner) doLike(likeOp string) (sql.SQLCondition, error) {
 	}
 	enqVal = enqVal[1 : len(enqVal)-1]
 	return sql.Eq(
-		sql.NewRawObject(fmt.Sprintf("%s(samples.string, '%%%s%%')", likeOp, enqVal)), sql.NewIntVal(1),
+		sql.NewRawObject(fmt.Sprintf("%s(string, '%%%s%%')", likeOp, enqVal)), sql.NewIntVal(1),
 	), nil
 }
 
